@@ -3,7 +3,7 @@ CONSTANTS
   MaxLen = 5
   StyleIds = {1, 2, 3, 4, 5}
   LHIds = {1, 2, 3, 4, 5}
-  Variant = "fixed"
+  Variant = "crlf"
   Strict = FALSE
   Gen = TRUE
 SPECIFICATION Spec
